@@ -93,7 +93,7 @@ func c02ParseSpecs(s string) []genOpts {
 		}
 		n := func(i int) uint64 { v, _ := strconv.ParseUint(f[i], 10, 64); return v }
 		out = append(out, genOpts{Epoch: n(0), NBlocks: int(n(1)), MaxTx: int(n(2)), SkipPct: int(n(3)), FramePct: int(n(4)), BigPct: int(n(5)),
-			LoadedPct: int(n(6)), FirstSlotAt: n(7), KeySeedBase: byte(n(0) + 1), NKeys: 6})
+			LoadedPct: int(n(6)), FirstSlotAt: n(7), KeySeedBase: byte(n(0) + 1), NKeys: 6, TxDataFrames: true})
 	}
 	return out
 }
@@ -133,7 +133,7 @@ func c02ParseCase(line string) (c02Case, bool) {
 
 func c02Cases(rng *zz.RNG, thorough bool) []c02Case {
 	mk := func(e uint64, nb, maxTx, skip, frame, big, loaded int) genOpts {
-		return genOpts{Epoch: e, NBlocks: nb, MaxTx: maxTx, SkipPct: skip, FramePct: frame, BigPct: big, LoadedPct: loaded, KeySeedBase: byte(e + 1), NKeys: 6}
+		return genOpts{Epoch: e, NBlocks: nb, MaxTx: maxTx, SkipPct: skip, FramePct: frame, BigPct: big, LoadedPct: loaded, KeySeedBase: byte(e + 1), NKeys: 6, TxDataFrames: true}
 	}
 	var cs []c02Case
 	if !thorough {
